@@ -268,6 +268,13 @@ func c17Gen(g *Gen) {
 				mem("mem-oversized", kind, append(c17BE32(x), make([]byte, tail)...))
 			}
 		}
+		// size classes up to a few MiB: a failure of the underlying reader must be wrapped whatever
+		// the declared size is (the stream reader allocates the declared size first, so keep it modest)
+		for _, x := range []uint32{1<<20 - 1, 1 << 20, 1<<20 + 1, 3 << 20, 5<<20 + 7} {
+			for _, tail := range []int{0, 1, 50, 5000} {
+				str("stream-oversized-large", kind, append(c17BE32(x), make([]byte, tail)...))
+			}
+		}
 		for _, x := range []uint32{1, 2, 100, 5000, 70000} { // the stream reader allocates the declared size first
 			for _, tail := range []int{0, 1, 50} {
 				str("stream-oversized", kind, append(c17BE32(x), make([]byte, tail)...))
